@@ -1,6 +1,7 @@
 package engine
 
 import (
+	"reflect"
 	"fmt"
 	"go/types"
 	"sort"
@@ -116,6 +117,11 @@ func exploreWalk(p *Prog, fn *ssa.Function, init map[string]uint32, summarise ma
 }
 
 func exploreWalkOpts(p *Prog, fn *ssa.Function, init map[string]uint32, summarise map[string]bool, suffix map[string]uint32, maxTraces int) *WalkRun {
+	return exploreWalkArgs(p, fn, init, summarise, suffix, maxTraces, nil)
+}
+
+// exploreWalkArgs: like exploreWalkOpts with some parameters bound to given abstract values.
+func exploreWalkArgs(p *Prog, fn *ssa.Function, init map[string]uint32, summarise map[string]bool, suffix map[string]uint32, maxTraces int, bound map[int]AVal) *WalkRun {
 	w := NewWalkEnv(p)
 	for k, v := range init {
 		w.Init[k] = v
@@ -224,7 +230,13 @@ func exploreWalkOpts(p *Prog, fn *ssa.Function, init map[string]uint32, summaris
 		}
 		return 0, false
 	}
-	trs := in.Explore(fn, symArgs(fn), maxTraces)
+	args := symArgs(fn)
+	for i, v := range bound {
+		if i < len(args) {
+			args[i] = v
+		}
+	}
+	trs := in.Explore(fn, args, maxTraces)
 	return &WalkRun{Fn: fn, Env: w, Traces: trs}
 }
 
@@ -294,4 +306,49 @@ func DebugWalk(repo, name string) {
 			fmt.Printf("  EV %dx %s\n", evs[k], k)
 		}
 	}
+}
+
+
+// walkerStrictFor: does the struct walker, handed a value that is not a struct (and not a pointer),
+// write a clause ("is not struct") when its mode parameter has the given value? Decided by
+// interpreting the walker itself with that argument bound — whatever the representation of the mode
+// (optional variadic bool, plain bool, enum).
+var strictCache sync.Map
+
+func walkerStrictFor(p *Prog, fn *ssa.Function, paramIdx int, flag AVal) (strict, known bool) {
+	type key struct {
+		p  *Prog
+		fn *ssa.Function
+		i  int
+		k  string
+	}
+	ck := key{p, fn, paramIdx, keyOf(flag)}
+	if v, ok := strictCache.Load(ck); ok {
+		r := v.([2]bool)
+		return r[0], r[1]
+	}
+	init := map[string]uint32{}
+	for _, prm := range fn.Params {
+		if isReflectValue(prm.Type()) {
+			init[prm.Name()] = kmask(reflect.String)
+		}
+	}
+	sum := summarisedNames(p)
+	r := exploreWalkArgs(p, fn, init, sum, nil, 4000, map[int]AVal{paramIdx: flag})
+	known = true
+	for _, t := range r.Traces {
+		if t.Converged {
+			continue
+		}
+		if t.Cut != "" {
+			known = false
+		}
+		for _, e := range t.Events {
+			if e.Kind == "write" {
+				strict = true
+			}
+		}
+	}
+	strictCache.Store(ck, [2]bool{strict, known})
+	return strict, known
 }
